@@ -45,6 +45,8 @@ INPUTS = {
     "unnamed_core_library": ([("main.pn", "import \"core:text/char.pn\";\n\nfn main() -> i32\n{\n\tvar r: i32 = 5;\n"
                                "\tif is_control_char(0) == false\n\t{\n\t\tr = -1;\n\t}\n\treturn: r\n}\n")], False, [477]),
     "pointer_cast_without_cast": ([("main.pn", "fn main() -> i32\n{\n\tvar x: u32 = 17;\n\tvar y: &i32 = &x as &i32;\n\treturn: y\n}\n")], False, [552]),
+    "char8_cast_error": ([("main.pn", "fn main() -> i32\n{\n\tvar c: char8 = 'a';\n\tvar x: i32 = c as i32;\n\treturn: x\n}\n")], False, [552]),
+    "bool_cast_error": ([("main.pn", "fn main() -> i32\n{\n\tvar x: i32 = 3;\n\tvar b: bool = x as bool;\n\treturn: x\n}\n")], False, [552]),
     "missing_file": ([], False, None),
     "empty_file": ([("main.pn", "")], False, [101]),
 }
